@@ -12,6 +12,8 @@ NA = {
  "C16": "decision lives in methods of ContentPackCreator which cannot be constructed without spawning threads; detect branch is floating point; dedup adder is HashMap<blake3::Hash,_> (DESIGN.md section 5)",
 }
 TEXT = {
+ "C03": ("Bounded model checking of the real lookup (RangeTrait::find, both branches) over every sorted sequence of up to 6 (thorough 9) keys, every window size and offset and every probe; of the reader's byte-wise order on arrays split between inline part and store (Array::cmp/ArrayIter) against the lexicographic order of the whole value; of the reader's and writer's integer orders; and of the writer's order on arrays (prefix, value id, size) against the byte order, under exactly the id-assignment guarantee of the value stores, with all bytes, lengths, inline lengths and ids symbolic.",
+         "4 C03", "Kani/CBMC; the two rayon sorts (entries, value-store ids) are assumptions: their post-conditions are taken as preconditions and shown sufficient; HashMap-based PropertyCompare/AnyBuilder and SmallVec probes are outside"),
  "C06": ("Bounded model checking, under debug and release semantics, of the code that runs before or without a checksum: assert_slice_crc on buffers shorter than a checksum, the real blind open end to end on every memory file shorter than one block, the blind open's own arithmetic and control flow for the header-at-start branch with the file length and the declared pack size fully symbolic (u64), PackHeader::parse on 60 arbitrary bytes, and region arithmetic under the callers' precondition. Every panic, overflow or out-of-bounds index on these paths is a failed check; counterexamples are replayed natively in the matching profile. Narrow by design: parsers that only see CRC-verified bytes are outside the property's scope.",
          "4 C06", "Kani/CBMC models debug/release semantics (debug assertions, overflow checks), not optimiser behaviour; the two header parses of the glue harness are replaced by nondeterministic results; FileSource/mmap (FFI), the mirrored-tail branch of the blind open and the background decoder (rayon: abort on decoder error, endless wait on short output - both real, see DESIGN.md) are outside"),
  "C05": ("Bounded model checking of (1) the real table-driven CRC code against a bitwise CRC-32C reference over all blocks of 1-2 (thorough: 4) data bytes, (2) the real writer (Serializer::close / write_serializer) producing exactly that checksum in big endian after the data, (3) single-byte alterations never accepted, and (4) every block-reading entry point of Reader / ArrayReader / ValueStore run with a checksum oracle that records the range it is asked about: Ok only if exactly [offset, offset+size+4) was verified and accepted, rejection surfaces as Corrupted. Removing a verification or checking the wrong range changes no test outcome but fails (4); a parameter change of the CRC fails (1)/(2).",
